@@ -342,6 +342,13 @@ impl Cw20Model {
     /// state invariants evaluated through queries
     fn check_state(&self, w: &World, r: &Ref, o: &Obs, out: &mut Vec<Violation>) {
         let cfg = &self.cfg;
+        self.check_sum(o, out);
+        self.check_rest(w, r, o, out);
+    }
+
+    /// C01's state invariant, from observations alone (no reference needed)
+    fn check_sum(&self, o: &Obs, out: &mut Vec<Violation>) {
+        let cfg = &self.cfg;
         if cfg.props.c01 {
             // sum in 256 bits: use checked u128 and flag overflow as a violation of its own
             let mut sum: Option<u128> = Some(0);
@@ -370,6 +377,10 @@ impl Cw20Model {
                 }
             }
         }
+    }
+
+    fn check_rest(&self, w: &World, r: &Ref, o: &Obs, out: &mut Vec<Violation>) {
+        let cfg = &self.cfg;
         if cfg.props.c01 || cfg.props.c02 || cfg.props.c13 {
             // conformance with the reference ledger
             if o.supply != r.supply {
@@ -797,12 +808,8 @@ impl Model for Cw20Model {
         }
         r.minter = cfg.mint.map(|m| m.0);
         r.cap = cfg.mint.and_then(|m| m.1);
-        if dup {
-            v.push(Violation::new(
-                "C01.duplicate_initial_account_accepted",
-                "instantiate accepted a repeated account".into(),
-            ));
-        }
+        // A repeated account that is ACCEPTED is not a violation by itself (an implementation may merge the
+        // rows): what the property demands is judged on the resulting state, below.
         match total {
             None => v.push(Violation::new(
                 "C01.initial_supply_overflow_accepted",
@@ -811,7 +818,7 @@ impl Model for Cw20Model {
             Some(t) => {
                 r.supply = t;
                 if let Some(cap) = r.cap {
-                    if t > cap && (cfg.props.c13 || cfg.props.c01) {
+                    if t > cap && cfg.props.c13 {
                         v.push(Violation::new(
                             "C13.initial_supply_above_cap_accepted",
                             format!("initial supply {t} cap {cap}"),
@@ -832,12 +839,16 @@ impl Model for Cw20Model {
         };
         if !dup && total.is_some() {
             self.check_state(&w, &r, &obs, &mut v);
+        } else {
+            // no reference ledger for a message with repeated accounts: the state invariant alone decides,
+            // and the run stops here
+            self.check_sum(&obs, &mut v);
         }
         let mut st = State {
             w,
             r,
             obs: Arc::new(obs),
-            dead: false,
+            dead: dup || total.is_none(),
         };
         for (o, sp, a) in &cfg.pre_allow {
             let stp = self.step(&st, &Act::Inc { owner: *o, spender: *sp, amt: Amt(*a), exp: ExpA::Unset });
